@@ -144,6 +144,71 @@ Proof.
   rewrite Hw in H1.
   apply (g_vec_refines_singles k agents Es actss _ i E _ Hnd HK Wf HF HE H1).
 Qed.
+(* ---- any history of step / reset calls ---- *)
+Definition event_at (n : nat) (agents : list nat) (i : nat) (ev : vevent) : sevent :=
+  match ev with
+  | EvStep actions => SeStep (nth i (transpose_actions agents actions 0%Z) [])
+  | EvReset sd opt => SeReset (rarg_at n sd opt i)
+  end.
+Definition event_ok (n : nat) (ev : vevent) : Prop :=
+  match ev with EvStep a => actions_ok n a | EvReset sd _ => seed_ok n sd end.
+(* position i of what the vector environment returned agrees with what the environment alone returned *)
+Definition outcome_agrees (k : okind) (agents : list nat) (i : nat) (vo : voutcome) (so : soutcome) : Prop :=
+  match vo, so with
+  | OStep out, SoStep ref => agrees_at k agents i out (process_transition k agents ref)
+  | OReset r, SoReset w =>
+      forall a, In a agents ->
+        obs_row i k (get a (fst r) []) = get a (fst w) (placeholder_obs k) /\
+        (forall key, info_at (snd r) a key i = info_in (snd w) a key)
+  | _, _ => False
+  end.
+
+Theorem g_vec_events_refines k agents Es : forall evs (st : gvstate state) i E s,
+  NoDup agents -> Forall (fun E => e_kind E = k) Es -> wf_vstate (length Es) k agents st ->
+  Forall (event_ok (length Es)) evs ->
+  nth_error Es i = Some E -> nth_error (vstates st) i = Some s ->
+  let evs_i := map (event_at (length Es) agents i) evs in
+  nth_error (vstates (fst (g_vec_events wstep wreset e_kind k agents Es st evs))) i
+    = Some (fst (g_events e_step e_reset e_live E s evs_i)) /\
+  Forall2 (outcome_agrees k agents i)
+          (snd (g_vec_events wstep wreset e_kind k agents Es st evs))
+          (snd (g_events e_step e_reset e_live E s evs_i)).
+Proof.
+  induction evs as [|ev rest IH]; intros st i E s Hnd HK Hst HF HE Hs; cbn zeta.
+  - cbn. split; auto.
+  - inversion HF as [|? ? Hev HF']; subst.
+    assert (Hk : e_kind E = k).
+    { rewrite Forall_forall in HK. apply HK. eapply nth_error_In; eauto. }
+    destruct ev as [actions|sd opt]; cbn [g_vec_events g_events map event_at].
+    + cbn [event_ok] in Hev.
+      destruct (g_vec_step_refines wstep e_kind g_worker_obs_wf g_worker_info_wf
+                  k agents Es st actions i E s Hnd HK Hst Hev HE Hs) as (Wf & H1 & H2).
+      cbn zeta in H1, H2.
+      destruct (g_vec_step wstep e_kind k agents Es st actions) as [st' out]. cbn [fst snd] in *.
+      rewrite (g_worker_refines_single e_step e_reset e_kind e_live C_done) in H1, H2. cbn [fst snd] in H1, H2.
+      destruct (sstep E s (nth i (transpose_actions agents actions 0%Z) [])) as [s' ref] eqn:Es1.
+      cbn [fst snd] in H1, H2.
+      specialize (IH st' i E s' Hnd HK Wf HF' HE H1). cbn zeta in IH.
+      destruct (g_vec_events wstep wreset e_kind k agents Es st' rest) as [stf outs].
+      destruct (g_events e_step e_reset e_live E s' (map (event_at (length Es) agents i) rest)) as [sf refs].
+      cbn [fst snd] in *. destruct IH as [I1 I2]. split; auto.
+      constructor; auto. cbn [outcome_agrees]. rewrite <- Hk at 2. exact H2.
+    + cbn [event_ok] in Hev.
+      destruct (g_vec_reset_refines_env k agents Es st sd opt i E s Hnd HK Hst Hev HE Hs) as (Wf & H1 & H2).
+      cbn zeta in H1, H2.
+      destruct (g_vec_reset wreset e_kind k agents Es st sd opt) as [st' r]. cbn [fst snd] in *.
+      unfold g_worker_reset in H1, H2.
+      destruct (e_reset E s (rarg_at (length Es) sd opt i)) as [s' [o inf]] eqn:Er. cbn [fst snd] in H1, H2.
+      specialize (IH st' i E s' Hnd HK Wf HF' HE H1). cbn zeta in IH.
+      destruct (g_vec_events wstep wreset e_kind k agents Es st' rest) as [stf outs].
+      destruct (g_events e_step e_reset e_live E s' (map (event_at (length Es) agents i) rest)) as [sf refs].
+      cbn [fst snd] in *. destruct IH as [I1 I2]. split; auto.
+      constructor; auto. cbn [outcome_agrees fst snd]. intros a Ha.
+      destruct (H2 a Ha) as (O1 & O2 & _). split.
+      * rewrite O1. unfold get. rewrite (fill_lookup agents _ o a Ha), Hk. reflexivity.
+      * intros key. rewrite O2. unfold info_in. rewrite (fill_lookup agents _ inf a Ha).
+        destruct (lookup a inf); reflexivity.
+Qed.
 End Generic.
 
 (* ================================================================== the scripted family meets the contract *)
@@ -285,4 +350,17 @@ Proof.
   assert (Hn : ~ In a (filter (fun a0 => negb (joins_late E a0)) (seq 0 (nag E)))).
   { intros H. apply filter_In in H as [_ H]. rewrite Hj in H. discriminate. }
   rewrite !(lookup_map_notIn _ _ a Hn). auto.
+Qed.
+
+(* any interleaving of reset(seed, options) and step(actions) calls, for the scripted family *)
+Theorem vec_events_refines_lemma k agents Es : forall evs (st : vstate) i E s,
+  NoDup agents -> Forall (fun E => kind E = k) Es -> wf_vstate (length Es) k agents st ->
+  Forall (event_ok (length Es)) evs ->
+  nth_error Es i = Some E -> nth_error (vstates st) i = Some s ->
+  let evs_i := map (event_at (length Es) agents i) evs in
+  nth_error (vstates (fst (vec_events k agents Es st evs))) i = Some (fst (single_events E s evs_i)) /\
+  Forall2 (outcome_agrees k agents i) (snd (vec_events k agents Es st evs)) (snd (single_events E s evs_i)).
+Proof.
+  exact (g_vec_events_refines raw_step env_reset kind live all_done_keys_spec raw_obs_ok reset_obs_ok
+           raw_info_nodup reset_info_nodup k agents Es).
 Qed.
